@@ -145,6 +145,9 @@ Checks(g, run) ==
                  /\ d.total >= d.unique
                  /\ d.is_done),
     \* ---- C02 -------------------------------------------------------
+    \* assert_properties on a check that is not done (asked while the workers are still exploring; is_done was false
+    \* before AND after the call, and is_done is monotone) never succeeds: "succeeds exactly when ... and is_done is true"
+    early_assert |-> Chk("early" \in DOMAIN run /\ ~run.early.done_after, run.early.panicked),
     verdicts |-> Chk(comp,
                  \A i \in DOMAIN g.props :
                     LET p == g.props[i] IN
@@ -207,6 +210,13 @@ Checks(g, run) ==
     target_real |-> Chk(a_target /\ vn # reach /\ ~(Matches(cfg.finish, dn, g.props) \/ AllDiscovered(g, run)),
                  Len(SelectSeq(g.init, LAMBDA s : InB(g, s)))
                    + SumOver(vn, [v \in vn |-> Len(SelectSeq(SuccList(g, v), LAMBDA t : t # 0 /\ InB(g, t)))]) >= cfg.target_states),
+    \* simulation: the state counters are exactly the number of states generated (= handed to the visitor) along all
+    \* traces, so a run stopped by target_state_count has really generated that many
+    sim_count |-> Chk(sim /\ normal /\ ~cfg.no_visitor /\ Len(vis) > 0, d.total = Len(vis) /\ d.unique = Len(vis)),
+    target_sim |-> Chk(sim /\ normal /\ ~cfg.no_visitor /\ cfg.target_states > 0 /\ cfg.timeout_ms = 0,
+                 \/ Len(vis) >= cfg.target_states
+                 \/ Matches(cfg.finish, dn, g.props) \/ AllDiscovered(g, run)
+                 \/ InitB(g) = {}),
     depth_max |-> Chk(cfg.target_depth > 0 /\ Len(vis) > 0,
                  \A i \in DOMAIN vis : Len(vis[i].path) <= cfg.target_depth),
     depth_min |-> Chk(a_dmin,
